@@ -33,6 +33,8 @@ func init() {
 			"length of the NEXT_HOP payload (declared 4, the value is whatever address the dialer bound: reviewed exception, see DESIGN.md section 6).",
 		Run: runC16,
 		Mutants: []Mutant{
+			{Name: "negotiated-hold-time-written-into-the-request", File: "internal/bgp/native/native.go",
+				Old: "\ts.actualHoldTime = *s.HoldTime\n\tif op.holdTime < s.actualHoldTime {\n\t\ts.actualHoldTime = op.holdTime\n\t}", New: "\tif op.holdTime < *s.HoldTime {\n\t\t*s.HoldTime = op.holdTime\n\t}\n\ts.actualHoldTime = *s.HoldTime", Expect: "PARAMS-READONLY"},
 			{Name: "notification-class-table-indexed-by-wire-octet", File: "internal/bgp/native/messages.go",
 				Old: "\t\tv = \"unknown code\"\n", New: "\t\tv = [...]string{\"\", \"header\", \"open\", \"update\", \"hold\", \"fsm\", \"cease\"}[code>>8]\n", Expect: "WIRE-INDEX"},
 			{Name: "hold-time-clamped-on-the-wire", File: "internal/bgp/native/messages.go",
@@ -93,6 +95,8 @@ func runC16(p *chk.Prog, r *chk.Report) {
 	c16ReadAhead(p, r)
 	c16CapsSticky(p, r)
 	c16WireIndex(p, r)
+	c16ReadToEnd(p, r)
+	c16ParamsReadonly(p, r)
 	// the NEXT_HOP put on the wire is the address the session actually speaks from (ROUND-ATOMIC next-hop part, shared
 	// with C17): the local address of the established connection, not a configured value
 	c17RoundAtomic(p, r)
@@ -416,6 +420,10 @@ func c16Negotiated(p *chk.Prog, r *chk.Report) {
 				}
 				n++
 				if b := so.MatchNew("[4]byte(SRC)", ast.Unparen(kv.Value)); b != nil && so.MatchWith("R.To4()", so.Resolve(b["SRC"]), chk.H("R", rid)) != nil {
+					ok = true
+				}
+				// ... or as the 32-bit number those four bytes are in network order (written big-endian again)
+				if b := so.MatchNew("binary.BigEndian.Uint32(SRC)", ast.Unparen(kv.Value)); b != nil && so.MatchWith("R.To4()", so.Resolve(b["SRC"]), chk.H("R", rid)) != nil {
 					ok = true
 				}
 				return true
@@ -1034,19 +1042,43 @@ func c16Attrs(p *chk.Prog, r *chk.Report) {
 				sz, ok := nextBinaryWrite(s)
 				okLen = ok && sz == 1
 				nWriters := 0
+				direct := false // the length is taken from the advertisement's own list: nothing to fill
+				if v, isVar := list.(*types.Var); isVar && v.IsField() && v.Name() == "Communities" {
+					direct = true
+				}
 				for _, rs := range f.RangeLoops(f.IsObj(list)) {
 					el := rangeVal(f, rs)
+					// the element itself, or its 32-bit form taken through the legacy type (c.(BGPCommunityLegacy).ToUint32())
+					fromEl := func(v ast.Expr) bool {
+						if el(v) {
+							return true
+						}
+						b := f.MatchNew("X.ToUint32()", ast.Unparen(f.Resolve(v)))
+						if b == nil {
+							return false
+						}
+						x := ast.Unparen(f.Resolve(b["X"]))
+						if ta, isTA := x.(*ast.TypeAssertExpr); isTA {
+							x = ta.X
+						}
+						return el(x)
+					}
+					wsize := -1
 					wr := func(n ast.Node) bool {
 						found := false
 						chk.InspectNoLit(n, func(m ast.Node) bool {
-							if v, _, ok := fixedWrite(f, buf, m); ok && el(v) {
+							if v, _, ok := fixedWrite(f, buf, m); ok && fromEl(v) {
 								found = true
+								wsize = chk.PackedSize(f.Info().TypeOf(v))
 							}
 							return true
 						})
 						return found
 					}
-					okLen = okLen && !loopSkipsWithout(g, rs, wr, chk.NoGuard) && !loopHasBreak(g, rs) && chk.PackedSize(f.Info().TypeOf(rs.Value)) == 4
+					if len(g.Find(func(n ast.Node) bool { return chk.InBody(rs, n) && wr(n) })) == 0 {
+						continue // a loop over the list that writes nothing (a validation pass)
+					}
+					okLen = okLen && !loopSkipsWithout(g, rs, wr, chk.NoGuard) && !loopHasBreak(g, rs) && wsize == 4
 					nWriters++
 				}
 				// or the whole list in one binary.Write (a slice of fixed-size values is encoded element by element)
@@ -1078,7 +1110,7 @@ func c16Attrs(p *chk.Prog, r *chk.Report) {
 						okFill = sized && !loopSkipsWithout(g, rs, store, chk.NoGuard) && !loopHasBreak(g, rs)
 					}
 				}
-				okLen = okLen && okFill
+				okLen = okLen && (okFill || direct)
 			}
 			x.Check("attrs:COMMUNITIES", s.Pos(), okLen, "", "COMMUNITIES length is not 4 x the number of communities written (one 4-byte value per community)")
 		}
@@ -2365,4 +2397,116 @@ func c16OpenFields(p *chk.Prog, r *chk.Report) {
 		}
 	}
 	x.Check("raw-read:functions-scanned", 0, nFn >= 20, "", "fewer functions of internal/bgp/native scanned than expected")
+}
+
+// c16ParamsReadonly (shared with C17): what the caller asked for - hold time, keepalive time, connect time, handed over as
+// pointers in bgp.SessionParameters - is read by the session, never written: the value negotiated with one peer on one
+// connection is kept in the session's own fields. A store through one of those pointers changes the request itself:
+// the next OPEN announces the last peer's hold time, and the caller's own variable changes under it.
+func c16ParamsReadonly(p *chk.Prog, r *chk.Report) {
+	x := r.Rule("PARAMS-READONLY", "D ownership (effects)", "in package native nothing is stored through a pointer field of bgp.SessionParameters (`*s.HoldTime = ..`, or through a local copy of such a pointer): negotiated values live in the session's own fields", 0)
+	pt := p.LookupType("internal/bgp", "SessionParameters")
+	if pt == nil {
+		x.Undecided("anchor:bgp.SessionParameters", "UNDECIDED anchor missing: bgp.SessionParameters")
+		return
+	}
+	st, _ := pt.Underlying().(*types.Struct)
+	ptrField := map[*types.Var]bool{}
+	for i := 0; st != nil && i < st.NumFields(); i++ {
+		if _, isPtr := st.Field(i).Type().Underlying().(*types.Pointer); isPtr {
+			ptrField[st.Field(i)] = true
+		}
+	}
+	n := 0
+	for _, f := range p.FuncsIn(natPkg) {
+		if f.Body == nil {
+			continue
+		}
+		f := f
+		fromParams := func(e ast.Expr) bool {
+			for hop := 0; hop < 3; hop++ {
+				e = ast.Unparen(e)
+				if sel, isSel := e.(*ast.SelectorExpr); isSel {
+					if sn := f.Info().Selections[sel]; sn != nil {
+						if v, isVar := sn.Obj().(*types.Var); isVar && ptrField[v] {
+							return true
+						}
+					}
+					return false
+				}
+				id, isId := e.(*ast.Ident)
+				if !isId {
+					return false
+				}
+				d := f.LocalDef(id)
+				if d == nil {
+					// several definitions: any of them a parameter pointer
+					for _, a := range assignsTo(f, f.ObjOf(id)) {
+						if as, isAs := a.(*ast.AssignStmt); isAs && len(as.Lhs) == len(as.Rhs) {
+							for i, l := range as.Lhs {
+								if f.ObjOf(l) == f.ObjOf(id) {
+									if sel, isSel := ast.Unparen(as.Rhs[i]).(*ast.SelectorExpr); isSel {
+										if sn := f.Info().Selections[sel]; sn != nil {
+											if v, isVar := sn.Obj().(*types.Var); isVar && ptrField[v] {
+												return true
+											}
+										}
+									}
+								}
+							}
+						}
+					}
+					return false
+				}
+				e = d
+			}
+			return false
+		}
+		chk.InspectNoLit(f.Body, func(nd ast.Node) bool {
+			var targets []ast.Expr
+			switch v := nd.(type) {
+			case *ast.AssignStmt:
+				targets = v.Lhs
+			case *ast.IncDecStmt:
+				targets = []ast.Expr{v.X}
+			}
+			for _, t := range targets {
+				if star, isStar := ast.Unparen(t).(*ast.StarExpr); isStar && fromParams(star.X) {
+					n++
+					x.Fail("store@"+f.Name()+":"+f.Src(t), nd.Pos(), "a store through a pointer of the session parameters: the requested value itself is changed (the next OPEN carries what the last peer negotiated; the caller's variable changes too)")
+				}
+			}
+			return true
+		})
+	}
+	if n == 0 {
+		x.OK("no-store-through-parameter-pointers", 0, "")
+	}
+}
+
+// c16ReadToEnd (shared with C17): the optional parameters of an OPEN, and the capabilities inside one, are read to the
+// end: RFC 5492 lets a peer spread its capabilities over several parameters (one capability each is what FRR and IOS
+// send), so the 4-byte-ASN capability may sit in the last one. The decoding loops report success only when the reader
+// is exhausted.
+func c16ReadToEnd(p *chk.Prog, r *chk.Report) {
+	x := r.Rule("READ-TO-END", "B path", "readOptions and readCapabilities return success (a nil error) only behind io.EOF from their own read of the next header: neither stops after the first parameter / capability it understood", 2)
+	for _, name := range []string{"readOptions", "readCapabilities"} {
+		f := p.LookupFunc(natPkg, "", name)
+		if f == nil || f.Body == nil {
+			continue // merged into its caller: the other decoders' rules speak for it
+		}
+		r.Saw(f)
+		g := f.Graph()
+		eof := chk.GAnyOf(g.GPat(true, "E == io.EOF"), g.GPat(true, "errors.Is(E, io.EOF)"), g.GPat(true, "io.EOF == E"))
+		n := 0
+		for _, rt := range g.Returns() {
+			res := retResults(rt)
+			if len(res) == 0 || !f.IsNilLit(res[len(res)-1]) {
+				continue
+			}
+			n++
+			x.Check(name+":success-only-at-end-of-input", rt.Pos(), g.Dominated(rt, eof), "", name+" can report success before its input is exhausted: what follows (a further Capabilities parameter with the 4-byte-ASN capability, say) is never looked at - the peer is judged by its 2-byte AS field, or spoken to in the wrong AS_PATH width")
+		}
+		x.Check(name+":success-return", f.Pos(), n >= 1, "", "no success return")
+	}
 }
